@@ -79,6 +79,12 @@ def run(tier, replay=None):
         chk.set("valgrind_memcheck_inputs", len(sub) if vg is not None else 0)
         for c, head in (vg or []):
             chk.violation("memcheck:" + fuzzlib.stable(head), "hexasm on input %s: valgrind memcheck reports %s" % (c['id'], head), {"input.S": c['src'].encode('latin-1', 'replace')})
+        # the EXECUTABLE (its main() has exception handlers of its own) on a sample
+        usamp = [c for c in cases if c['fam'] == 'unusual']
+        esub = usamp[:: max(1, len(usamp) // (250 if tier == "quick" else 5000))] + [c for c in cases if c['fam'] in ('edge', 'deep')]
+        for c, what in fuzzlib.exe_sample(os.path.join(corpus.tools(), "hexasm"), esub, d, ".S", "c10"):
+            chk.violation("exe:" + what.split(',')[0], "hexasm executable on input %s: %s" % (c['id'], what), {"input.S": c['src'].encode('latin-1', 'replace')})
+        chk.set("executable_runs", len(esub))
         # the lexer against spec/Lex.tla: every string up to length 4 over a small alphabet, tokenised by TLC and by the tool
         import lexcheck
         nlex, lexbad = lexcheck.run(d, exe, exe, only="asm")
